@@ -28,6 +28,24 @@ pub enum VerifEvent {
     /// A soft requirement was registered with the other candidates of its
     /// package right before it was decided.
     SoftRegister(u32),
+    /// A future of the encoder completed and its result is about to be
+    /// handled.
+    TaskDone(VerifTask),
+}
+
+/// A unit of work of the encoder (`u32::MAX` is the root).
+#[derive(Clone, Debug, PartialEq, Eq)]
+pub enum VerifTask {
+    /// The dependencies of a solvable.
+    Dependencies(u32),
+    /// The candidates of a package.
+    Candidates(u32),
+    /// The sorted candidates of a single-version-set requirement of a solvable.
+    RequirementSingle(u32, u32),
+    /// The sorted candidates of a union requirement of a solvable.
+    RequirementUnion(u32, u32),
+    /// The non-matching candidates of a constraint of a solvable.
+    Constraint(u32, u32),
 }
 
 /// The origin of a variable.
